@@ -196,6 +196,10 @@ type WriteOptions struct {
 	UseSummaryOffsets bool     `json:"use_summary_offsets"`
 	EnableCRCs        bool     `json:"enable_crcs"`
 	EnableDataCRCs    bool     `json:"enable_data_crcs"`
+	// Output: what the Python Writer is given to write to: "" / "file" an ordinary buffered file object,
+	// "path" the file's path, "raw" an unbuffered file (open(..., buffering=0), which the Writer wraps
+	// itself), "bytesio" an in-memory stream whose content is then saved.
+	Output string `json:"output,omitempty"`
 }
 
 // kvPairs keeps the insertion order: Python's writer serialises a dict in insertion order, so the
